@@ -50,7 +50,7 @@ theorem nextTokenCore_ne_crash {buf : Bytes} {np : Bool} {s : State} (hp : s.pos
     have inv := triviaLoop_ok (p0 := s.pos) htl (by simp [CommentsOK]) (by simp [lastEnd])
     obtain ⟨i1, i2, i3, i4, i5, i6⟩ := inv
     split
-    · simp
+    · rw [slice?_of_le i4 (Nat.le_refl _)]; simp
     · split
       · rename_i hc
         split at hc
@@ -92,13 +92,14 @@ theorem nextTokenCore_progress {buf : Bytes} {np : Bool} {s s' : State}
     obtain ⟨i1, i2, i3, i4, i5, i6⟩ := inv
     split at h
     · rename_i hhe
-      cases h
       have j := i6 hhe
-      have j3 := j.2.2.1
-      have j4 := j.2.2.2
+      have j4 := j.2
       subst j4
-      refine ⟨by simp, by simp, ?_, by simp⟩
-      intro _; simp only; omega
+      split at h
+      · cases h
+      · cases h
+        refine ⟨by simp, by simp, ?_, by simp⟩
+        intro _; simp only; omega
     · split at h
       · cases h
       · cases h
